@@ -70,6 +70,11 @@ def run(v):
         shutil.rmtree(vd, ignore_errors=True)
 
 sel = [v for v in variants if prop == 'all' or prop in v['props'] or prop == v.get('own')]
+# UAVERIF_SKIP=stored|seed|benign (comma separated): leave a group out (long regressions in parts)
+skip = set(filter(None, os.environ.get('UAVERIF_SKIP', '').split(',')))
+def group(v):
+    return 'seed' if v['id'].startswith('seed-') else 'benign' if v['id'].startswith('benign-') else 'stored'
+sel = [v for v in sel if group(v) not in skip]
 if not sel:
     print('selftest: no stored variants for', prop)
     sys.exit(0)
